@@ -113,8 +113,8 @@ type monitor struct {
 	looseNextSync time.Time
 
 	// shutdown / PreferBeingIdle bookkeeping
-	shutdownBegun        bool
-	shutdownAtHook       bool // shutdown had begun at the last in-Run hook or reply
+	shutdownBegun  bool
+	shutdownAtHook bool // shutdown had begun at the last in-Run hook or reply
 	// wokenAfterShutdown: the driver fired the client's wait timer after
 	// shutdown had begun while the client was certainly parked in its
 	// select (nothing left to consume): the request that follows is built
@@ -122,8 +122,8 @@ type monitor struct {
 	wokenAfterShutdown bool
 	// armedShutdown ("timer"/"readiness"): the next hook of that kind
 	// cancels the worker's context from inside Run.
-	armedShutdown string
-	stop          func()
+	armedShutdown        string
+	stop                 func()
 	needReadiness        bool
 	readinessFailures    int
 	syncCount            int
